@@ -2173,6 +2173,9 @@ func (d *Document) parseParagraph(decoder *xml.Decoder, startElement xml.StartEl
 				if run != nil {
 					paragraph.Runs = append(paragraph.Runs, *run)
 				}
+			case "hyperlink", "smartTag", "ins", "moveTo", "sdt", "sdtContent", "fldSimple", "customXml", "dir", "bdo":
+				// 行内容器（超链接、智能标记、修订插入、内容控件、简单域等）：
+				// 不跳过，继续读取其中的运行，避免丢失容器内的文本
 			default:
 				// 跳过其他元素
 				if err := d.skipElement(decoder, t.Name.Local); err != nil {
@@ -2340,7 +2343,8 @@ func (d *Document) parseRun(decoder *xml.Decoder, startElement xml.StartElement)
 				if err != nil {
 					return nil, err
 				}
-				run.Text.Content = content
+				// 一个运行可以包含多个文本元素（例如以制表符分隔），全部保留
+				run.Text.Content += content
 			case "drawing":
 				// 解析绘图元素（图片等）
 				drawing, err := d.parseDrawingElement(decoder, t)
